@@ -75,16 +75,21 @@ class Action:
 
         old_to_new_parameter_names: the mapping between the old and new parameter names.
         """
-        ordered_old_signature = list(self.signature.keys())
-        for old_param_name in ordered_old_signature:
-            new_param_name = old_to_new_parameter_names[old_param_name]
-            self.signature[new_param_name] = self.signature.pop(old_param_name)
-
+        self.signature = {
+            old_to_new_parameter_names.get(param_name, param_name): param_type
+            for param_name, param_type in self.signature.items()
+        }
         self.preconditions.change_signature(old_to_new_parameter_names)
         for effect in self.discrete_effects:
             effect.change_signature(old_to_new_parameter_names)
 
+        # the effects are hashed by their text, which has just changed.
+        self.discrete_effects = set(self.discrete_effects)
         for effect in self.numeric_effects:
             effect.change_signature(old_to_new_parameter_names)
 
-        # TODO: change the signature of the conditional and universal effects.
+        for conditional_effect in self.conditional_effects:
+            conditional_effect.change_signature(old_to_new_parameter_names)
+
+        for universal_effect in self.universal_effects:
+            universal_effect.change_signature(old_to_new_parameter_names)
